@@ -1,0 +1,72 @@
+//go:build verif
+
+package kversion
+
+// Verification contracts (comments only), read by /verif/govc. Compiled only with -tags verif; no code.
+
+// ---- C24, third clause: no release table allows a request version beyond what the codec encodes ----
+// maxVersionOf: the codec's maximum version per key - the same table the kmsg contracts check RequestForKey and
+// ResponseForKey against (pkg/kmsg/zz_verif_contracts_c24.go; the check compares the two copies).
+//@ spec maxVersionOf(key int16) int = ite(key == 0, 13, ite(key == 1, 18, ite(key == 2, 11, ite(key == 3, 13,
+//@   ite(key == 4, 7, ite(key == 5, 4, ite(key == 6, 8, ite(key == 7, 3, ite(key == 8, 10, ite(key == 9, 10,
+//@   ite(key == 10, 6, ite(key == 11, 9, ite(key == 12, 4, ite(key == 13, 5, ite(key == 14, 5, ite(key == 15, 6,
+//@   ite(key == 16, 5, ite(key == 17, 1, ite(key == 18, 4, ite(key == 19, 7, ite(key == 20, 6, ite(key == 21, 2,
+//@   ite(key == 22, 5, ite(key == 23, 4, ite(key == 24, 5, ite(key == 25, 4, ite(key == 26, 5, ite(key == 27, 2,
+//@   ite(key == 28, 5, ite(key == 29, 3, ite(key == 30, 3, ite(key == 31, 3, ite(key == 32, 4, ite(key == 33, 2,
+//@   ite(key == 34, 2, ite(key == 35, 4, ite(key == 36, 2, ite(key == 37, 3, ite(key == 38, 3, ite(key == 39, 2,
+//@   ite(key == 40, 2, ite(key == 41, 3, ite(key == 42, 2, ite(key == 43, 2, ite(key == 44, 1, ite(key == 45, 1,
+//@   ite(key == 46, 0, ite(key == 47, 0, ite(key == 48, 1, ite(key == 49, 1, ite(key == 50, 0, ite(key == 51, 0,
+//@   ite(key == 52, 2, ite(key == 53, 1, ite(key == 54, 1, ite(key == 55, 2, ite(key == 56, 3, ite(key == 57, 2,
+//@   ite(key == 58, 0, ite(key == 59, 1, ite(key == 60, 2, ite(key == 61, 0, ite(key == 62, 4, ite(key == 63, 1,
+//@   ite(key == 64, 0, ite(key == 65, 0, ite(key == 66, 2, ite(key == 67, 0, ite(key == 68, 1, ite(key == 69, 1,
+//@   ite(key == 70, 0, ite(key == 71, 0, ite(key == 72, 0, ite(key == 73, 0, ite(key == 74, 1, ite(key == 75, 0,
+//@   ite(key == 76, 1, ite(key == 77, 1, ite(key == 78, 2, ite(key == 79, 2, ite(key == 80, 1, ite(key == 81, 0,
+//@   ite(key == 82, 0, ite(key == 83, 0, ite(key == 84, 0, ite(key == 85, 1, ite(key == 86, 0, ite(key == 87, 1,
+//@   ite(key == 88, 0, ite(key == 89, 0, ite(key == 90, 1, ite(key == 91, 0, ite(key == 92, 0,
+//@   -1)))))))))))))))))))))))))))))))))))))))))))))))))))))))))))))))))))))))))))))))))))))))))))))
+
+// Every release table is built from an earlier one (clone) by addkey / addkeyver / incmax / setmin, all the way
+// down from the first release; FromApiVersionsResponse tables are not "named releases". So it suffices that
+//  - addkeyver stores exactly the given maximum, addkey stores 0, incmax raises the maximum by one to exactly the
+//    given value (it panics otherwise), and nothing else writes a maximum (the vmax field is written by these
+//    functions only - package-wide scan);
+//  - at EVERY call of these functions anywhere in the package the maximum passed is within the codec's maximum for
+//    that key (package-wide scan of the call sites with their constant arguments, one obligation per call).
+//@ audit calls (*release).incmax assert [within-the-codec-maximum] int(arg2) <= maxVersionOf(arg1)
+//@   prop C24
+//@ audit calls (*release).addkeyver except (*release).addkey assert [within-the-codec-maximum] int(arg2) <= maxVersionOf(arg1)
+//@   prop C24
+// (addkey forwards its key to addkeyver with maximum 0; its own call sites are checked here)
+//@ audit calls (*release).addkey assert [a-key-the-codec-knows] 0 <= maxVersionOf(arg1)
+//@   prop C24
+
+//@ func (r *release) incmax(key int16, vmax int16)
+//@   prop C24
+//@   site mapupdate req#0 assert [raised-to-exactly-the-given-maximum] mapkey == key && val.vmax == vmax && had && val.vmax == prev.vmax + 1 && val.key == prev.key && val.vmin == prev.vmin
+//@ func (r *release) addkeyver(key int16, vmax int16)
+//@   prop C24
+//@   site mapupdate req#0 assert [stores-the-given-maximum] mapkey == key && val.key == key && val.vmax == vmax && val.vmin == 0
+//@ func (r *release) addkey(key int16)
+//@   prop C24
+//@   site call addkeyver#0 assert [starts-at-version-0] arg1 == key && arg2 == 0
+//@ func (r *release) setmin(key int16, vmin int16)
+//@   prop C24
+//@   site mapupdate req#0 assert [maximum-untouched] mapkey == key && had && val.vmax == prev.vmax && val.key == prev.key
+
+// The three tables written out as map literals (the first ZooKeeper release and the first KRaft broker / controller
+// releases): every entry is stored under its own key with a maximum within the codec's.
+//@ func z080() (r *release)
+//@   prop C24
+//@   site mapupdate req#* assert [literal-entry-within-the-codec-maximum] val.key == mapkey && int(val.vmax) <= maxVersionOf(mapkey) && 0 <= maxVersionOf(mapkey)
+//@ func b28() (r *release)
+//@   prop C24
+//@   site mapupdate req#* assert [literal-entry-within-the-codec-maximum] val.key == mapkey && int(val.vmax) <= maxVersionOf(mapkey) && 0 <= maxVersionOf(mapkey)
+//@ func c28() (r *release)
+//@   prop C24
+//@   site mapupdate req#* assert [literal-entry-within-the-codec-maximum] val.key == mapkey && int(val.vmax) <= maxVersionOf(mapkey) && 0 <= maxVersionOf(mapkey)
+
+// Nothing else writes a maximum: a package-wide scan finds stores to req.vmax only in the functions above, in
+// reqsFromApiVersions (tables received from a broker) and in SetMaxKeyVersion (a table the user edits) - neither
+// produces a named release.
+//@ audit initonly req.vmax except (*release).incmax; (*release).addkeyver; z080; b28; c28; reqsFromApiVersions; (*Versions).SetMaxKeyVersion
+//@   prop C24
